@@ -396,6 +396,21 @@ func Generate(seed uint64, n int, tier string, corpusDir string, out *kit.Out) e
 		if i%10 == 7 { // batch reads with many keys per partition
 			sc = genBatchScenario(cr, backends[(i/10)%len(backends)])
 		}
+		// big PutBatch calls: four per quick run (the first two always an exact multiple of 256 rows)
+		bigEvery := 60
+		if tier == "thorough" {
+			bigEvery = 25
+		}
+		if i%bigEvery == bigEvery/2 {
+			size := kit.Pick(cr, bigSizes)
+			switch i / bigEvery {
+			case 0:
+				size = 256
+			case 1:
+				size = kit.Pick(cr, []int{512, 768})
+			}
+			sc = genBigBatchScenario(cr, backends[(i/bigEvery)%len(backends)], size)
+		}
 		if i%every == every-1 {
 			sc = genLongScenario(cr, []string{"cached", "mem", "bbolt", "cached-bbolt", "cached"}[(i/every)%5])
 		}
